@@ -422,6 +422,17 @@ def rule_OD5(rep, prog):
                     "linkage and the submitting context disappears - dispatch_assert_queue on the submitting queue traps, dispatch_assert_queue_not passes"
                     % (bare[0][3] if bare else None), sample={"saves": len(save)})
 
+    # the main queue serviced from a run-loop callout hides whatever frames the callout happens to be nested in: its drain frame is pushed with the
+    # linkage cut (rebased onto NULL), so items of the main queue never see the queues of an enclosing dispatch_sync as their own hierarchy
+    fn = prog.fn("_dispatch_main_queue_drain")
+    rep.saw(fn)
+    pushes = calls_named(fn, ("_dispatch_thread_frame_push_and_rebase", "_dispatch_thread_frame_push"))
+    cut = [c for c in pushes if c.callee == "_dispatch_thread_frame_push_and_rebase" and len(c.ops) >= 3 and (c.ops[2][0] == "n" or (c.ops[2][0] == "c" and c.ops[2][1] == 0))]
+    rep.require(rid, bool(pushes) and len(cut) == len(pushes), (pushes[0].loc if pushes else fn.file), fn.name, "main-drain-frame-chained",
+                "_dispatch_main_queue_drain pushes its frame chained to the frames already on the thread instead of rebasing onto an empty linkage: when the run loop "
+                "services the main queue from inside a dispatch_sync block, items of the main queue see the enclosing queues in their hierarchy - "
+                "dispatch_assert_queue_not(outer) traps and dispatch_assert_queue(outer) passes inside a main-queue item", sample={"pushes": len(pushes), "cut": len(cut)})
+
 
 def rule_TB9(rep, prog, srcdir):
     rid = rep.rule("C18-TB9", "which queues carry queue-specific data is a fixed property of the queue's TYPE: _dispatch_queue_admits_specific is a function of do_type "
@@ -574,6 +585,7 @@ def rule_TB7(rep, prog):
     QSHIFT = consts.get(["DISPATCH_PRIORITY_QOS_SHIFT"])["DISPATCH_PRIORITY_QOS_SHIFT"]
     # reported qos: the `and X, 255` in the backward slice of the first dq_priority store
     P = None
+    impure = []
     work, seen = [pst[0].ops[0]], set()
     while work and P is None:
         o = work.pop()
@@ -581,10 +593,13 @@ def rule_TB7(rep, prog):
         if i is None or i.id in seen:
             continue
         seen.add(i.id)
-        if i.op == "and" and i.ops[1][0] == "c" and i.ops[1][1] == 255 and ceval(fn, ("i", i.id), {info.id: 3}) is not None and \
-                any(u.op == "shl" and u.ops[1][0] == "c" and u.ops[1][1] == QSHIFT for u in fn.users(i)):
-            P = i
-            break
+        if i.op == "shl" and i.ops[1][0] == "c" and i.ops[1][1] == QSHIFT and fn.inst(i.ops[0]) is not None:
+            x = fn.inst(i.ops[0])
+            if ceval(fn, ("i", x.id), {info.id: 3}) is not None:
+                P = x
+                break
+            impure.append(x)
+            continue
         work += [x[0] for x in i.ops] if i.op == "phi" else [x for x in i.ops if x[0] == "i"]
     # root qos: incomings of the root lookup's argument that are pure functions of the attribute info
     Qs = []
@@ -601,6 +616,12 @@ def rule_TB7(rep, prog):
             work += [x for x in i.ops[1:] if x[0] == "i"]
         elif ceval(fn, ("i", i.id), {info.id: 3}) is not None:
             Qs.append(i)
+    if P is None and impure:
+        rep.violation(rid, impure[0].loc, fn.name, "reported-qos-not-from-attribute",
+                      "the QoS class stored in the new queue's dq_priority is not a function of the attribute alone (it is merged with values computed later, such as the "
+                      "class borrowed from the target root queue): a queue created without a class reports its creation target's class as if the client had requested "
+                      "it, and keeps it after being retargeted")
+        return
     if P is None or not Qs:
         rep.unknown(rid, "could not identify the reported / root QoS values as functions of the attribute info (P=%s Q=%d)" % (P, len(Qs)))
         return
@@ -666,6 +687,11 @@ def run(rep, tier="quick", srcdir=None, only=None):
         rule_WM6(rep, prog)
     if want("C18-TB7"):
         rule_TB7(rep, prog)
+    if want("C03-MP7"):
+        # an item runs in the hierarchy the queue has NOW: a drain that started under the old target stops before the first item after a retarget, or that
+        # item runs under the old target's lock and frames while do_targetq (and dispatch_get_specific) already follow the new one (shared with C03)
+        from . import C03
+        C03.rule_MP7(rep, prog, Q(srcdir))
 
 
 MANIFEST = {
